@@ -240,6 +240,7 @@ func (in *Interp) registerProtoIntrinsics() {
 	}
 	r["github.com/gogo/protobuf/proto.Clone"] = clone
 	r["github.com/golang/protobuf/proto.Clone"] = clone
+	r["google.golang.org/protobuf/proto.Clone"] = clone
 	r["github.com/gogo/protobuf/proto.MessageName"] = func(in *Interp, fr *frame, args []Value) Value {
 		i := args[0].(Iface)
 		return mkStr(in.protoByType[i.T])
